@@ -197,6 +197,15 @@ def run_case(ctx, k, rng):
             de1, de2 = d(X, empty), d(empty, X)
             t = 1e-9 * sc if kind == "bn" else 1e-12 * sc * (len(X) + 1)
             ctx.check(kind + ": vs empty diagram", abs(de1 - want) <= t and abs(de2 - want) <= t, got=[de1, de2], expected=want)
+            if len(X):
+                # the same with essential classes present (every Rips H0 diagram has one): they are dropped, the rest is as above
+                import warnings as _w
+                Xi = gen.insert_inf_rows(rng, X, int(rng.integers(1, 3)))
+                with _w.catch_warnings():
+                    _w.simplefilter("ignore")
+                    di1, di2 = d(Xi, empty), d(empty, Xi)
+                ctx.check(kind + ": vs empty diagram", abs(di1 - want) <= t and abs(di2 - want) <= t, got=[di1, di2], expected=want,
+                          with_infinite_deaths=True)
             # oracle on the same value
             S, T = OM.finite_rows(X), OM.finite_rows(Y)
             ref = OM.bottleneck_threshold(S, T) if kind == "bn" else OM.wasserstein_lsa(S, T)
